@@ -181,18 +181,19 @@ def power_analyze(field, spaces=None, binbounds=None,
 
 
 def _create_power_field(domain, power_spectrum):
-    if not callable(power_spectrum):  # we have a Field defined on a PowerSpace
-        if not isinstance(power_spectrum, Field):
-            raise TypeError("Field object expected")
+    # Fields are callable, too, hence test for them first
+    if isinstance(power_spectrum, Field):  # a Field defined on a PowerSpace
         if len(power_spectrum.domain) != 1:
             raise ValueError("exactly one domain required")
         if not isinstance(power_spectrum.domain[0], PowerSpace):
             raise TypeError("PowerSpace required")
         power_domain = power_spectrum.domain[0]
         fp = power_spectrum
-    else:
+    elif callable(power_spectrum):
         power_domain = PowerSpace(domain)
         fp = PS_field(power_domain, power_spectrum)
+    else:
+        raise TypeError("Field object or callable expected")
 
     return PowerDistributor(domain, power_domain)(fp)
 
